@@ -188,8 +188,13 @@ def run_both(hists, nslots, watch, jobs=8, quiet=0):
     lines = [enc(op) + " " + enc(arg) for op, arg in reqs]
     ml, il = _run_split("model", lines, jobs), _run_split("impl", lines, jobs)
     out = []
+    decoded_bad = 0
     for rq, a, b in zip(reqs, ml, il):
         n = len(rq[1][2])
+        if a != b and decoded_bad > 80:
+            # plenty of disagreements are decoded already: the remaining differing batches are counted, not decoded
+            out += [(Err("DisagreementNotDecoded"), Err("DisagreementNotDecoded:impl"), None)] * n
+            continue
         rb = raw_parse(b)
         ok = isinstance(rb, list) and len(rb) == n and all(isinstance(x, list) for x in rb)
         if a == b and ok:
@@ -202,6 +207,7 @@ def run_both(hists, nslots, watch, jobs=8, quiet=0):
                 return [r if isinstance(r, Err) else Err("BadBatch")] * n
             return [canon_obs("history", x) for x in r]
         fa, fb = flat(raw_parse(a)), flat(rb)
+        decoded_bad += sum(1 for x, y in zip(fa, fb) if x != y)
         out += [(x, y, (z if ok else None)) for x, y, z in zip(fa, fb, rb if ok else [None] * n)]
     return out
 
@@ -220,6 +226,8 @@ def correspond_histories(ctx, label, hists, nslots, watch, jobs=8, quiet=0):
     for k, (h, (a, b, raw)) in enumerate(zip(hists, res)):
         sizes[len(h)] += 1
         bad = (a is not None or b is not None) and (isinstance(a, Err) or a != b)
+        if not bad and raw is None:
+            bad = True
         if not bad:
             for step in raw:
                 o = step[0]
@@ -304,18 +312,25 @@ def shrink_diffs(diffs, limit=3):
 # ---------------------------------------------------------------------------
 # rendering a history as Python against the public API
 def snippet(ops, nslots):
-    lines = ["import gc; gc.disable()",
+    used = {o[2] for o in ops if o[0] in ("dom", "cplx", "strand", "macro", "rxn")}
+    lines = ["import gc; gc.disable()   # release must not depend on the cyclic collector",
              "from dsdobjects.base_classes import DomainS, ComplexS, StrandS, MacrostateS, ReactionS",
-             "from dsdobjects import SingletonError",
-             "# subclasses as in /verif/harness/impl/registry.py (build_zoo); base classes have indices 0-4",
-             "from impl.registry import build_zoo, ZOO; build_zoo()",
-             f"s = [None] * {nslots}"]
+             "from dsdobjects import SingletonError"]
+    if any(c >= 5 for c in used):
+        lines += ["# user subclasses as in /verif/harness/impl/registry.py (build_zoo): " +
+                  ", ".join(f"ZOO[{c}] = {NAMES[c]}" for c in sorted(used) if c >= 5),
+                  "import sys; sys.path.insert(0, '/verif/harness')",
+                  "from impl.registry import build_zoo, ZOO; build_zoo()"]
+    lines.append(f"s = [None] * {nslots}")
+
+    def clsname(c):
+        return NAMES[c] if c < 5 else f"ZOO[{c}]"
 
     def tryit(stmt):
         return f"try: {stmt}\nexcept Exception as e: print(type(e).__name__, getattr(e, 'existing', None))"
     for o in ops:
         t = o[0]
-        cls = f"ZOO[{o[2]}]" if t in ("dom", "cplx", "strand", "macro", "rxn") else ""
+        cls = clsname(o[2]) if t in ("dom", "cplx", "strand", "macro", "rxn") else ""
         if t == "dom":
             kw = ", ".join(f"{k}={v!r}" for k, v in zip(("name", "length", "prefix", "dtype"), o[3:]) if v is not None)
             lines.append(tryit(f"s[{o[1]}] = {cls}({kw})"))
@@ -348,7 +363,7 @@ def snippet(ops, nslots):
             lines.append(tryit("print(" + q.format(o[1]) + ")"))
         elif t == "turns":
             lines.append(tryit(f"s[{o[1]}].turns = {o[2]}"))
-    lines.append("for c in ZOO: print(c.__name__, dict(c._instanceNames))")
+    lines.append("for c in (DomainS, ComplexS, StrandS, MacrostateS, ReactionS): print(c.__name__, dict(c._instanceNames))")
     return "\n".join(lines)
 
 
@@ -525,7 +540,8 @@ def oracle_search(pid, histories, deep=False, limit=10):
     found, seen = [], set()
     for f in out["failures"]:
         key = {"check": f["check"], "what": _what_class(f["what"]),
-               "zero_length": any(o[0] == "dom" and o[4] == 0 for o in f["ops"])}
+               "zero_length": any(o[0] == "dom" and o[4] == 0 for o in f["ops"]),
+               "double_star": any(o[0] == "dom" and isinstance(o[3], str) and o[3].endswith("**") for o in f["ops"])}
         k = json.dumps(key, sort_keys=True)
         if k in seen:
             continue
@@ -547,6 +563,11 @@ def run_check(ctx, pid, batches, rule, partial=(), refuted=()):
     if runner.ok:
         all_batches = batches(ctx)
         for label, hists, nslots, watch, *q in all_batches:
+            if len(diffs) > 40:
+                # the correspondence is broken already: go and look for a failing input instead of
+                # decoding thousands of further disagreements
+                ctx.cov.setdefault("batches_skipped_after_disagreements", []).append(label)
+                continue
             diffs += correspond_histories(ctx, label, hists, nslots, watch, jobs=16, quiet=q[0] if q else 0)
     ctx.cov["rule"] = rule
     ctx.cov["partial"] = list(partial)
